@@ -1108,6 +1108,27 @@ theorem quotOf_cover {q : σ} (hq : q ∈ kept)
   rw [quotOf_of_nonempty hne]
   exact List.mem_map.mpr ⟨b, hbg, rfl⟩
 
+/-- **2d. Names are pairwise disjoint.** -/
+theorem quotOf_disjoint {l l' : List σ}
+    (hl : MinName.blk l ∈ (quotOf p syms trans init finals).states)
+    (hl' : MinName.blk l' ∈ (quotOf p syms trans init finals).states) {q : σ}
+    (hq : q ∈ l) (hq' : q ∈ l') : l = l' := by
+  cases hne : (goodBlocks p).isEmpty with
+  | true =>
+    rw [quotOf_of_empty hne] at hl
+    simp at hl
+  | false =>
+    rw [quotOf_of_nonempty hne] at hl hl'
+    obtain ⟨b, hb, hbl⟩ := List.mem_map.mp hl
+    obtain ⟨c, hc, hcl⟩ := List.mem_map.mp hl'
+    unfold bname at hbl hcl
+    injection hbl with hbl
+    injection hcl with hcl
+    subst hbl hcl
+    have : b = c := H.part.same_block (mem_goodBlocks.mp hb).1 (mem_goodBlocks.mp hc).1
+      (mem_blockStates.mp hq) (mem_blockStates.mp hq')
+    rw [this]
+
 end quot2
 
 end DFA
